@@ -107,17 +107,21 @@ def work(name):
     return rec
 
 
+PARAM_SETS = [{'a1': 0.6123, 'a2': 0.3789, 'theta': 0.2345}, {'a1': 0.65432, 'a2': 1 / 3., 'theta': 0.123456789}, {'a1': 0.9, 'a2': 0.05, 'theta': 1e-5}]
+
+
 def transport():
-    """Parameter transport (concrete side-condition): 4-decimal arguments arrive verbatim in the emitted text."""
+    """Parameter transport (concrete side-condition): the propensities and the tax rate handed to the sectors arrive in the emitted text value for value
+    (short and long decimal expansions)."""
     out = []
     for name in ('SIM', 'SIMEX1', 'PC'):
-        ov = {'a1': 0.6123, 'a2': 0.3789, 'theta': 0.2345}
-        ctx, gov = build(name, ov)
-        em = emit(ctx)
-        eq = dict(em.parser.Endogenous)
-        got = {k: eq.get(v) for k, v in (('a1', 'HH__AlphaIncome'), ('a2', 'HH__AlphaFin'), ('theta', 'TF__TaxRate'))}
-        ok = all(got[k] is not None and abs(float(got[k]) - ov[k]) < 1e-12 for k in ov)
-        out.append((name, ok, got))
+        for i, ov in enumerate(PARAM_SETS):
+            ctx, gov = build(name, ov)
+            em = emit(ctx)
+            eq = dict(em.parser.Endogenous)
+            got = {k: eq.get(v) for k, v in (('a1', 'HH__AlphaIncome'), ('a2', 'HH__AlphaFin'), ('theta', 'TF__TaxRate'))}
+            ok = all(got[k] is not None and float(got[k]) == ov[k] for k in ov)
+            out.append(('%s:%d' % (name, i), ok, got))
     return out
 
 
@@ -236,7 +240,7 @@ def run(tier, seed):
     chk.bounds = {'models': ['SIM', 'SIMEX1', 'PC'], 'periods': 'one-period induction: arbitrary lagged stocks/income/rate -> all k>=1',
                   'numeric domain': 'alpha1, alpha2 in (0,1), theta in [0,1), lambda0..2, G_k, r_k, r_{k-1}, lagged stocks: all reals'}
     chk.assumptions = ['admissibility: 0<alpha1<1, 0<alpha2<1, 0<=theta<1; PC: wealth V != 0 (the book divides by it)',
-                       'parameters on the 4-decimal grid the constructors emit (%0.4f is pinned by the test-suite); transport checked concretely',
+                       'parameter transport (constructor argument -> literal in the emitted text) is checked concretely for values with short and long decimal expansions',
                        'initial stocks: the induction leaves lagged stocks free; that stated initial stocks (incl. zeros) become the k=0 state is a concrete side-check',
                        'exogenous paths: the induction leaves G_k and r_k free; that the path stated last through any public route (model.AddExogenous by code or object, sector.SetExogenous; after or without the builder`s book paths) is the one emitted is a concrete side-check']
     chk.outside = ['numerical agreement of the iterated series (C02 + this give it jointly)', 'off-grid parameter values (documented rounding)']
@@ -262,7 +266,7 @@ def run(tier, seed):
         chk.ob('unsat' if ok else 'sat', distinct=('transport', name))
         chk.count('transport_checks')
         if not ok:
-            chk.violation('transport:' + name, 'parameters 0.6123/0.3789/0.2345 emitted as %s' % (got,),
+            chk.violation('transport:' + name, 'parameters %r emitted as %s' % (PARAM_SETS[int(name.split(':')[1])], got),
                           'import sys\nfrom vf.props.c09 import transport\nr=[t for t in transport() if t[0]==%r][0]\nprint(r)\nsys.exit(0 if r[1] else 1)\n' % name)
     for name, stocks, ok, detail in stock_transport():
         chk.ob('unsat' if ok else 'sat', distinct=('stock-transport', name, stocks))
